@@ -75,6 +75,12 @@ int fegetround(void);
 #define LEAST_DBL_10_DIGIT (1 + DBL_MIN_10_EXP - DBL_DIG)
 
 /**
+ * @brief The greatest scale at which a number can be formatted: the number of decimal places needed to express the
+ * least positive representable double exactly, which equals the number of binary places in it.
+ */
+#define MAX_DBL_SCALE (DBL_MANT_DIG - DBL_MIN_EXP)
+
+/**
  * @brief the number of leading zeroes permitted by default in the plain decimal text representation of a number value
  *
  * This is used by @c cif_value_autoinit_numb().
@@ -2185,7 +2191,7 @@ int cif_value_copy_char(cif_value_tp *value, const UChar *text) {
 }
 
 int cif_value_init_numb(cif_value_tp *n, double val, double su, int scale, int max_leading_zeroes) {
-    if ((su < 0.0) || (-scale < LEAST_DBL_10_DIGIT) || (-scale > DBL_MAX_10_EXP) || (max_leading_zeroes < 0)) {
+    if ((su < 0.0) || (scale > MAX_DBL_SCALE) || (-scale > DBL_MAX_10_EXP) || (max_leading_zeroes < 0)) {
         return CIF_ARGUMENT_ERROR;
     } else {
         FAILURE_HANDLING;
